@@ -48,7 +48,10 @@ func (rg *rootGenerator) generate() ([]*Node, error) {
 			return nil, errNilStack
 		}
 
-		stack.dfs(currentNode)
+		if !stack.dfs(currentNode) {
+			// nested more than one level deeper than the previous row
+			return nil, &inputFormatError{row: rg.scanner.Text()}
+		}
 	}
 
 	return roots, rg.scanner.Err()
